@@ -799,6 +799,51 @@ def body_count(data) -> Outcome:
 # ------------------------------------------------------------------------------------------------
 
 
+# ---- filtered_sweep over numeric values whose hashes collide (hash(-1) == hash(-2) in CPython) -----------------
+NUM_POOL = [-2, -1, 0, 1, 2, 3, -1.5, -2.5]
+NUM_DERIVERS = {"same": lambda c: c["a"], "neg": lambda c: -c["a"], "plus": lambda c: c["a"] + 1}  # a deriver gets the combination
+
+
+@st.composite
+def numeric_filtered(draw):
+    return {
+        "a": draw(st.lists(st.sampled_from(NUM_POOL), min_size=2, max_size=5, unique=True)),
+        "b": draw(st.lists(st.integers(-2, 1), min_size=1, max_size=3, unique=True)),
+        "keys": draw(st.sampled_from([["a"], ["a", "b"], ["a", "c"], ["c"], ["b", "c"], ["b"], ["a", "b", "c"]])),
+        "deriver": draw(st.sampled_from(sorted(NUM_DERIVERS))),
+        "with_derivers": draw(st.sampled_from([True, True, False])),
+    }
+
+
+def body_numeric_filtered(data) -> Outcome:
+    out = Outcome()
+    f = NUM_DERIVERS[data["deriver"]]
+    keys = [k for k in data["keys"] if data["with_derivers"] or k != "c"] or ["a"]
+    want = []
+    for a in data["a"]:
+        for b in data["b"]:
+            combo = {"a": a, "b": b}
+            if data["with_derivers"]:
+                combo["c"] = f(combo)
+            proj = {k: combo[k] for k in keys}
+            if proj not in want:
+                want.append(proj)
+    out.labels = ["numeric", "derivers" if data["with_derivers"] else "no-derivers"]
+    vals = [tuple(p.values()) for p in want]
+    if len({hash(v) for v in vals}) < len(vals):
+        out.labels.append("distinct-projections-with-equal-hash")
+        out.nontrivial = True
+    try:
+        s = Sweep({"a": list(data["a"]), "b": list(data["b"])}, derivers={"c": f} if data["with_derivers"] else None)
+        got = s.filtered_sweep(list(keys)).list()
+    except Exception as e:
+        out.fail(exc_bucket(e, "numeric-filtered_sweep-raised"), f"{data} {exc_detail(e)}")
+        return out
+    if sorted(map(repr, got)) != sorted(map(repr, want)):
+        out.fail("numeric-filtered_sweep-wrong-projections", f"{data}: got {got} want {want}")
+    return out
+
+
 def _base_campaigns(tier):
     return [
         Campaign("single", body_single, sweep_recipe("abcd"), quick=4000, thorough=150000,
@@ -811,6 +856,8 @@ def _base_campaigns(tier):
                  describe="+ / MultiSweep / combine / nested sums of 2-3 sweeps"),
         Campaign("filtered", body_filtered, filtered_case(), quick=2400, thorough=80000,
                  describe="filtered_sweep(keys) of sweeps without constants/exclude"),
+        Campaign("filtered-numeric", body_numeric_filtered, numeric_filtered(), quick=1500, thorough=20000,
+                 describe="filtered_sweep over numeric values incl. pairs with equal hashes (-1 / -2), with and without derivers"),
         Campaign("count", body_count, count_case(), quick=800, thorough=30000,
                  describe="count_sweep over DAG programs of 2-4 functions"),
     ]  # fmt: skip
